@@ -165,7 +165,9 @@ class Worker:
         from hypothesis.errors import FailedHealthCheck, Flaky, Unsatisfiable
 
         total = sub.quick if self.tier == "quick" else sub.thorough
-        scale = float(os.environ.get("VERIF_SCALE", "1"))
+        # the per-sub budgets were calibrated to ~10-20 s per property on 16 idle cores;
+        # the quick tier runs twice that by default (still well below a minute)
+        scale = float(os.environ.get("VERIF_SCALE", "2" if self.tier == "quick" else "1"))
         n = max(1, int(total * scale) // self.nshards)
         stats = SubStats(sub.name, sub.rule, sub.clauses)
         state = {"first_fail_t": None, "last": None}
